@@ -12,8 +12,8 @@
                             stay on the token contract's account;
     - [FF_ex_cannot_pay]    alice attaches 3 uusd she does not have: send_coins fails, the transaction
                             fails, the world is unchanged, although the plain WithdrawUnbonded succeeds;
-    - [FF_ex_rollback]      updater (no claim) attaches 777 usei it does have... (it has none: see below)
-                            handler failure after a successful transfer rolls the transfer back;
+    - [FF_ex_rollback]      keeper (given 1000 usei, no claim) attaches 777 usei to a WithdrawUnbonded:
+                            the transfer succeeds, the handler fails, the transfer is rolled back;
     - [FF_bond_not_decomposable_witness]
                             the exclusion of the bond messages is necessary: Bond with 1000 usei
                             succeeds, the transfer followed by a plain Bond fails;
@@ -35,10 +35,12 @@ Definition FF_w : world := run_ops FF_ops (empty_world 100).
 Definition FF_after_transfer (w : world) (s t : addr) (f : list coin) : world :=
   match send_coins (w_env w) s t f with Some e1 => set_env w e1 | None => w end.
 
+Ltac ff_conj := repeat match goal with |- _ /\ _ => split end.
+
 Example FF_ex_world :
   bal (w_env FF_w) A_hub usei = 701000 /\ bal (w_env FF_w) alice usei = 9000000 /\
   bal (w_env FF_w) alice uusd = 0 /\ bal (w_env FF_w) bob usei = 8000000.
-Proof. repeat split; vm_compute; reflexivity. Qed.
+Proof. ff_conj; vm_compute; reflexivity. Qed.
 
 Example FF_ex_withdraw :
   let f := [(usei, 777)] in
@@ -54,7 +56,7 @@ Example FF_ex_withdraw :
   (* without attached coins the same claim is worth 401 000 *)
   snd (step FF_w (OTx alice A_hub (WHub HWithdraw) [])) =
     (true, [(alice, MWasm A_hub (WHub HWithdraw) []); (A_hub, MBank alice [(usei, 401000)])]).
-Proof. cbv zeta. repeat split; vm_compute; reflexivity. Qed.
+Proof. cbv zeta. ff_conj; vm_compute; reflexivity. Qed.
 
 Example FF_ex_token_send :
   let f := [(usei, 5)] in
@@ -70,7 +72,7 @@ Example FF_ex_token_send :
   bal (w_env w') A_bsei usei = 5 /\ bal (w_env w') A_hub usei = 701000 /\
   w' <> fst (step FF_w (OTx alice A_bsei m [])).
 Proof.
-  cbv zeta. repeat split; try (vm_compute; reflexivity).
+  cbv zeta. ff_conj; try (vm_compute; reflexivity).
   intros H. apply (f_equal (fun w => bal (w_env w) A_bsei usei)) in H. vm_compute in H. discriminate H.
 Qed.
 
@@ -106,7 +108,7 @@ Lemma FF_bond_not_decomposable_witness :
   fst (snd (step FF_w (OTx alice A_hub (WHub HBond) f))) = true /\
   is_some (send_coins (w_env FF_w) alice A_hub f) = true /\
   fst (snd (step (FF_after_transfer FF_w alice A_hub f) (OTx alice A_hub (WHub HBond) []))) = false.
-Proof. cbv zeta. repeat split; vm_compute; reflexivity. Qed.
+Proof. cbv zeta. ff_conj; vm_compute; reflexivity. Qed.
 
 Example FF_ex_bond_extra :
   fst (snd (step FF_w (OTx alice A_hub (WHub HBond) [(usei, 1000)]))) = true /\
